@@ -407,7 +407,10 @@ def norm(x):
     if isinstance(x, tuple) and x:
         h = x[0]
         if h in ("and", "or"):
-            kids = [norm(k) for k in x[1]]
+            kids = []
+            for k in (norm(k) for k in x[1]):
+                if k not in kids:            # and/or are idempotent: a repeated operand denotes nothing new
+                    kids.append(k)
             if len(kids) == 1:
                 return kids[0]            # a conjunction / disjunction of one item denotes the item
             return (h, tuple(sorted(kids, key=repr)))
